@@ -892,6 +892,18 @@ def tasks_for(tier):
             continue
         # single-observer histories: the same update twice with only one model value read in between
         single = [e for e in evs if e.endswith('()')]
+        # ordered observer pairs around an accessor of the tree: one accessor (node_heights) may clear the flag that
+        # another reader (branch_lengths(), the likelihood, the coalescent) relies on - both orders, every operation
+        accessors = [e for e in evs if e in ('tree.node_heights', 'tree.branch_lengths()')]
+        if len(accessors) == 2:
+            for o in ops:
+                ts.append((scen, (o, o), (accessors[0], accessors[1])))
+                ts.append((scen, (o, o), (accessors[1], accessors[0])))
+                for e in (single if tier == 'thorough' else single[:3]):
+                    if e not in accessors:
+                        ts.append((scen, (o,), (accessors[0], e)))
+                        if tier == 'thorough':
+                            ts.append((scen, (o,), (e, accessors[0])))
         for o in ops:
             for e in (single if tier == 'thorough' else single[:4]):
                 ts.append((scen, (o, o), e))
